@@ -128,19 +128,19 @@ def outcome(ex, ev, p):
     raise NoModel("variant %s" % li[2])
 
 
-def classification(rep, F, tier):
-    rep.rule("R11.2", "line_intersection's decision table equals the exact classification (None / Collinear overlap / single point, properness) on every ordered pair of grid segments; "
+def classification(rep, F, tier, rule="R11.2", fn=None, pq=(1, 2), what="line_intersection"):
+    rep.rule(rule, what + "'s decision table equals the exact classification (None / Collinear overlap / single point, properness) on every ordered pair of grid segments; "
                       "improper points and overlap ends are the true input end points (R11.3); both orders are covered (R11.5)")
     try:
-        fn = F.one(r"^%sline_intersection$" % LI, crates=("geo",))
+        fn = fn or F.one(r"^%sline_intersection$" % LI, crates=("geo",))
     except KeyError as e:
-        rep.bad("R11.2", "anchor", str(e))
+        rep.bad(rule, "anchor", str(e))
         return
     ex = Symex(F, no_inline=[r"line_intersection::proper_intersection$", r"::orient2d$"] + HELPERS, max_paths=60000, budget_s=60)
     try:
         paths = [p for p in ex.run(fn) if p.kind == "ret"]
     except Unanalysable as e:
-        rep.bad("R11.2", "unanalysable", "cannot tabulate line_intersection (%s); fail closed" % e, where=fn.loc())
+        rep.bad(rule, "unanalysable", "cannot tabulate %s (%s); fail closed" % (what, e), where=fn.loc())
         return
     tree = Tree(paths)
     grid = G3 if tier == "quick" else G4
@@ -150,15 +150,15 @@ def classification(rep, F, tier):
     kinds = {}
     mism = {}
     for p_, q_ in itertools.product(segs, repeat=2):
-        ev = Evaluator(F, {("arg", 1): p_, ("arg", 2): q_}, CALLS)
+        ev = Evaluator(F, {("arg", pq[0]): p_, ("arg", pq[1]): q_}, CALLS)
         try:
             hit = tree.select(ev)
             if len(hit) != 1:
-                rep.bad("R11.2", "table", "segments %s %s select %d rows" % (fmt(p_), fmt(q_), len(hit)), where=fn.loc())
+                rep.bad(rule, "table", "segments %s %s select %d rows" % (fmt(p_), fmt(q_), len(hit)), where=fn.loc())
                 return
             got = outcome(ex, ev, hit[0])
         except NoModel as e:
-            rep.bad("R11.2", "non-abstractable", "a decision of line_intersection is not an orientation sign / coordinate comparison (%s)" % e, where=fn.loc())
+            rep.bad(rule, "non-abstractable", "a decision of " + what + " is not an orientation sign / coordinate comparison (%s)" % e, where=fn.loc())
             return
         want = reference(p_, q_)
         n += 1
@@ -180,13 +180,13 @@ def classification(rep, F, tier):
             cls = "%s->%s:%s" % ((want or ("none",))[0], (got or ("none",))[0], deg)
             if cls not in mism:
                 mism[cls] = 0
-                rep.bad("R11.2", "classification:" + cls, "for p=%s q=%s the decision table gives %s but the segments share %s  [row: %s]" %
+                rep.bad(rule, "classification:" + cls, "for p=%s q=%s the decision table gives %s but the segments share %s  [row: %s]" %
                         (fmt(p_), fmt(q_), pretty(got), pretty(want), show_pc(hit[0].pc)[:200]), where=fn.loc(),
                         detail={"p": fmt(p_), "q": fmt(q_), "got": pretty(got), "want": pretty(want), "row": show_pc(hit[0].pc)[:900]})
             mism[cls] += 1
     rep.info["line_intersection_mismatches"] = mism
     if not mism:
-        rep.ok("R11.2", "classification[%d ordered segment pairs, %d/%d rows reached]" % (n, len(reached), len(paths)),
+        rep.ok(rule, "classification[%d ordered segment pairs, %d/%d rows reached]" % (n, len(reached), len(paths)),
                sample={"pairs": n, "rows": len(paths), "rows_reached": len(reached), "by_kind": kinds})
     rep.info["line_intersection_rows"] = len(paths)
 
